@@ -223,6 +223,63 @@ func (s *feedStubs) Update(ctx context.Context, logID string, oldSize uint64, ne
 	return ret, err
 }
 
+// refWitness is the "recording stub" of C13: an independent reference witness (the harness' own note reader and RFC 6962
+// verifier, none of the repository's witness code) that accepts exactly the justified steps. It mirrors the one known
+// deviation of the real witness (a stored size of 0 cannot be left, finding F1) so that the composed model applies to both.
+type refWitness struct {
+	w      *world.World
+	l      *world.LogW
+	latest []byte
+}
+
+func (r *refWitness) GetLatestCheckpoint(ctx context.Context, id string) ([]byte, error) {
+	if id != r.l.ID || r.latest == nil {
+		return nil, os.ErrNotExist
+	}
+	return r.latest, nil
+}
+
+func (r *refWitness) Update(ctx context.Context, id string, old uint64, cp []byte, proof [][]byte) ([]byte, error) {
+	if id != r.l.ID {
+		return nil, errors.New("ref: unknown log")
+	}
+	n, err := ref.ParseNote(cp)
+	if err != nil {
+		return nil, errors.New("ref: malformed note")
+	}
+	signed := false
+	for _, sg := range n.Sigs {
+		signed = signed || r.l.Key.VerifyLegacy(n.Text, sg)
+	}
+	c, err := ref.ParseCheckpointText(n.Text)
+	if !signed || err != nil || c.Origin != r.l.Origin {
+		return nil, errors.New("ref: not signed by the log")
+	}
+	if r.latest != nil {
+		pn, _ := ref.ParseNote(r.latest)
+		pc, _ := ref.ParseCheckpointText(pn.Text)
+		switch {
+		case old > c.Size:
+			return r.latest, errors.New("ref: old size too large")
+		case old != pc.Size:
+			return r.latest, errors.New("ref: stale")
+		case c.Size == pc.Size && !bytes.Equal(c.Root, pc.Root):
+			return r.latest, errors.New("ref: root mismatch")
+		case pc.Size == 0 && c.Size > 0:
+			return r.latest, errors.New("ref: cannot leave size 0 (F1)")
+		case c.Size > pc.Size && !ref.VerifyConsistency(pc.Size, c.Size, proof, pc.Root, c.Root):
+			return r.latest, errors.New("ref: invalid proof")
+		case c.Size == pc.Size && len(proof) > 0:
+			return r.latest, errors.New("ref: proof must be empty")
+		}
+	}
+	out := []byte(string(cp) + r.w.WitKey.SignLegacy(n.Text) + r.w.WitKey.SignCosigV1(n.Text, uint64(time.Now().Unix())))
+	r.latest = out
+	return out, nil
+}
+
+var feedUseStub bool
+
 func feedMain(args []string) error {
 	fs := flag.NewFlagSet("feed", flag.ExitOnError)
 	in := fs.String("in", "", "scenarios (jsonl, first line params)")
@@ -230,6 +287,7 @@ func feedMain(args []string) error {
 	seed := fs.Int64("seed", 1, "seed")
 	embed := fs.String("embed", "id", "embedding")
 	par := fs.Int("par", 256, "scenarios in flight (the library backoff cannot be shortened)")
+	fs.BoolVar(&feedUseStub, "stub", false, "put the harness' reference witness (a recording stub) behind the feeder instead of the real witness")
 	_ = fs.Parse(args)
 	f, err := os.Open(*in)
 	if err != nil {
@@ -321,7 +379,16 @@ func execFeed(base *world.World, s feedScen, tag string, seed int64) ([]any, err
 		auth = []string{"badsig", "badtext", "unknownkey", "wrongorigin"}[w.Rng.Intn(4)]
 	}
 	sub := w.Concretise("l1", world.Req{Auth: auth, B: s.Sub.B, N: s.Sub.N, Pf: world.Pf{K: "empty"}}, nil)
-	stubs := &feedStubs{w: w, l: l, inner: omniwitness.VerifWitnessAdapter(wit), sc: s, run: tag, cp: sub.CP, cancel: cancel, cancelAt: -1}
+	var inner feeder.Witness = omniwitness.VerifWitnessAdapter(wit)
+	if feedUseStub {
+		rw := &refWitness{w: w, l: l}
+		if b, err := wit.GetCheckpoint(l.ID); err == nil {
+			rw.latest = b
+		}
+		inner = rw
+		tag += "-stub"
+	}
+	stubs := &feedStubs{w: w, l: l, inner: inner, sc: s, run: tag, cp: sub.CP, cancel: cancel, cancelAt: -1}
 	if s.Out.Why == "ctx" {
 		stubs.cancelAt = len(s.Hist)
 		if stubs.cancelAt == 0 {
